@@ -7,6 +7,7 @@ from vlib.runner import Arm, Eval, Failure
 from vlib.util import exc_key, exc_msg, have_c
 
 PROPERTY = "C14"
+T = "tag:yaml.org,2002:"
 LEVEL = "exploration"
 RULE = ("Hypothesis-generated documents built from mappings with colliding keys (a, b, c, 1, 1.0, 0x1, true, '1', ~, null), "
         "one or several merge keys whose values are a mapping, an alias to an anchored mapping, a list of mappings/aliases, "
@@ -246,6 +247,52 @@ def check_text(text, node, cl, legs=None):
             cl.add("well-shaped:with-merge")
         if "merge:list>=2" in cl:
             cl.add("well-shaped:with-merge-list>=2")
+    from vlib.runner import h64
+    if h64(text) % 4 == 0:
+        # a quarter of the texts are first read by the loaders that resolve nothing (an application may use both families in one
+        # process): what the safe loaders construct afterwards is judged by the same reference
+        cl.add("read-by-base-loaders-first")
+        for BL in [yaml.BaseLoader] + ([yaml.CBaseLoader] if have_c() else []):
+            evals += 1
+            try:
+                yaml.load(text, Loader=BL)
+            except yaml.YAMLError:
+                pass
+    # the reference constructor reads the merge / value keys off the tags of the composed nodes; that the composer gives a plain '<<'
+    # ('=') the merge (value) tag - and nothing else - is checked here against the event stream, for every loader leg, after the
+    # base-loader pass above
+    for lname, L in (legs if legs is not None else loaders()):
+        evals += 1
+        try:
+            events = list(yaml.parse(text, Loader=L))
+            want = {}
+            for e in events:
+                if isinstance(e, yaml.ScalarEvent) and e.value in ("<<", "="):
+                    plain = e.tag is None and e.implicit[0]
+                    t_ = T + {"<<": "merge", "=": "value"}[e.value] if plain else (e.tag if e.tag not in (None, "!") else T + "str")
+                    want[(e.value, t_)] = want.get((e.value, t_), 0) + 1
+            have = {}
+            seen_ = set()
+            stack_ = [yaml.compose(text, Loader=L)]
+            while stack_:
+                n_ = stack_.pop()
+                if n_ is None or id(n_) in seen_:
+                    continue
+                seen_.add(id(n_))
+                if n_.id == "scalar":
+                    if n_.value in ("<<", "="):
+                        have[(n_.value, n_.tag)] = have.get((n_.value, n_.tag), 0) + 1
+                elif n_.id == "sequence":
+                    stack_.extend(n_.value)
+                else:
+                    for k_, v_ in n_.value:
+                        stack_.append(k_)
+                        stack_.append(v_)
+            if have != want:
+                failures.append(Failure("merge-or-value-key-tagged-differently-than-written:%s" % lname,
+                                        "composed nodes %r, written %r\ntext=%r" % (sorted(have.items()), sorted(want.items()), text[:400])))
+        except (yaml.YAMLError, RecursionError):
+            pass
     for lname, L in (legs if legs is not None else loaders()):
         for attempt in (1, 2):
             evals += 1
